@@ -1,5 +1,6 @@
 import Ruint.Lemmas.RedcGen
 import Ruint.Gen.RedcFacts
+import Ruint.Lemmas.GenRedcLoops
 
 /-!
 # C11 — Montgomery multiplication and squaring compute `a·b·R⁻¹ mod m`
@@ -154,6 +155,37 @@ theorem word_primitives_match_source (l r a c : ℕ) (f : Bool)
     ∧ Ruint.Gen.borrowing_sub l r f = borrowingSub W l r f :=
   ⟨gen_carrying_mul_add_eq l r a c hl hr ha hc, gen_carrying_double_mul_add_eq l r a c f hl hr ha hc,
    gen_carrying_add_eq l r f hl hr, gen_borrowing_sub_eq l r f hl hr⟩
+
+/-! ## Whole-function tie to the source (G)
+
+`Ruint.Gen.mul_redc`, `Ruint.Gen.reduce1_carry` and `Ruint.Gen.redc_sub` are regenerated from
+`src/algorithms/mul_redc.rs` by `tools/rs2lean.py` on every run — the complete functions: both nested `for`
+loops of the CIOS multiplication with the indexed reads and writes of `result`, the reduction factor computed
+at `i == 0`, the shifted store `result[i - 1] = value`, the "add carries" step with the threshold arm, the
+`zip` loop of `sub`, and the final `carry | !borrow` selection. They are proved equal to the model for **every**
+limb count `N ≥ 1` and all operands (no word-size hypotheses are needed: both sides wrap identically). The driver
+executes the generated function for the slice-level operation. The `debug_assert!`s are not translated; they are
+the model's `ok` flag. -/
+
+/-- `sub` of `mul_redc.rs` (the `zip` loop) as generated from the source = the model's `sub`. -/
+theorem gen_redc_sub_eq (l r : List ℕ) (hlr : l.length = r.length) (hN : l.length < 2 ^ 64) (f : ℕ) (hf : l.length < f) :
+    Ruint.Gen.redc_sub f l.length l r = Ruint.Redc.sub W l r false :=
+  Ruint.GenRedcLoops.redc_sub_eq l r hlr hN f hf
+
+/-- `reduce1_carry` as generated from the source = the model's. -/
+theorem gen_reduce1_carry_eq (v md : List ℕ) (c : Bool) (hl : v.length = md.length) (hN : v.length < 2 ^ 64)
+    (f : ℕ) (hf : v.length < f) :
+    Ruint.Gen.reduce1_carry f v.length v md c = reduce1Carry W v md c :=
+  Ruint.GenRedcLoops.reduce1_carry_eq v md c hl hN f hf
+
+/-- **`mul_redc::<N>` as generated from the source** returns exactly what the model returns (the model additionally
+    reports whether a `debug_assert!` fired): every `N ≥ 1` (below `2^64` limbs), every operand. -/
+theorem gen_mul_redc_eq (a b md : List ℕ) (inv : ℕ) (hN : 0 < md.length) (hN64 : md.length < 2 ^ 64)
+    (ha : a.length = md.length) (hb : b.length = md.length) (fuel : ℕ) (hf : md.length < fuel) :
+    mulRedc W keepMul inv a b md
+      = if (mulRedcCore W keepMul inv a b md).2 then some (Ruint.Gen.mul_redc fuel md.length a b md inv) else none := by
+  rw [Ruint.GenRedcLoops.mul_redc_eq a b md inv hN hN64 ha hb fuel hf]
+  rfl
 
 /-! Non-vacuity: concrete instances evaluated by the kernel. `m = 2^128 − 159` (top limb `2^64 − 1`: the
 carry-keeping arms, accumulator overflows `2^128`), `a = m − 1`, `b = m − 2`, `inv = −m⁻¹ mod 2^64`;
